@@ -26,6 +26,7 @@
 
 #include "EbDecParseFrame.h"
 #include "EbDecParseHelper.h"
+#include "EbVerifHooks.h"
 
 /* Inititalizes prms for current tile from main TilesInfo ! */
 void svt_tile_init(TileInfo *cur_tile_info, FrameHeader *frame_header, int32_t tile_row,
@@ -291,6 +292,8 @@ EbErrorType parse_tile(EbDecHandle *dec_handle_ptr, ParseCtxt *parse_ctx, TilesI
                 &dec_handle_ptr->main_frame_buf.cur_frame_bufs[0]
                      .dec_mt_frame_data; //multi frame Parallel 0 -> idx
             assert(sb_row >= sb_row_tile_start);
+            SVT_VERIF_EV("decsb", dec_handle_ptr, "PrsRow", sb_row,
+                         (tile_info->tile_col_start_mi[tile_col] << MI_SIZE_LOG2) >> dec_handle_ptr->seq_header.sb_size_log2);
             dec_mt_frame_data->parse_recon_tile_info_array[tile_num]
                 .sb_recon_row_parsed[sb_row - sb_row_tile_start] = 1;
         }
